@@ -229,10 +229,19 @@ impl NtpSourceSnapshot {
         // Note, this can only ever be an issue if the source is not using
         // hardware as its source, so ignore reference_id if stratum is 1.
 
+        // Never synchronize to ourselves, whatever stratum we advertise.
+        if local_ips
+            .iter()
+            .any(|ip| ReferenceId::from_ip(*ip) == self.source_id)
+        {
+            debug!("Source rejected because it is one of our own addresses");
+            return Err(AcceptSynchronizationError::Loop);
+        }
+
         if self.stratum != 1
             && local_ips
                 .iter()
-                .any(|ip| ReferenceId::from_ip(*ip) == self.source_id)
+                .any(|ip| ReferenceId::from_ip(*ip) == self.reference_id)
         {
             debug!("Source rejected because of detected synchronization loop (ref id)");
             return Err(AcceptSynchronizationError::Loop);
